@@ -36,3 +36,15 @@ impl<'de> Deserialize<'de> for XF {
         }))
     }
 }
+
+/// `#[serde(with = "crate::xf::as_xf")]` for plain f64 fields that may be NaN / infinite.
+pub mod as_xf {
+    use super::XF;
+    use serde::{Deserialize, Deserializer, Serialize, Serializer};
+    pub fn serialize<S: Serializer>(v: &f64, s: S) -> Result<S::Ok, S::Error> {
+        XF(*v).serialize(s)
+    }
+    pub fn deserialize<'de, D: Deserializer<'de>>(d: D) -> Result<f64, D::Error> {
+        Ok(XF::deserialize(d)?.0)
+    }
+}
